@@ -93,11 +93,11 @@ prop("C15",
      assumptions=DISP_ASSUME,
      residual="composition of single moves into a block move (move_rows_action loop), cell content re-entry, hidden-row handling")
 prop("C33",
-     units=["refshift", "dispsites", "cutcf"],
+     units=["refshift", "dispsites", "cutcf", "cfshift"],
      level="proof",
      claim="link-key maps, CF corner maps and the formula reference rewriter are proved equal to the SAME spec functions (lemma_metadata_agrees_with_formulas): deleted <=> None <=> #REF!, at every edge position",
      assumptions=DISP_ASSUME,
-     residual="CF sqref string splitting/printing, CF rule formulas (parser), cut/paste, clear+undo of links")
+     residual="CF sqref string splitting/printing, the rewriting of one CF rule formula (parser), the write-back loop of displace_cf_ranges, cut/paste, clear+undo of links")
 
 
 prop("C04",
